@@ -4,7 +4,6 @@ import (
 	"encoding/binary"
 	"fmt"
 	"strings"
-	"time"
 
 	"dsim/core"
 	"dsim/indep"
@@ -220,7 +219,7 @@ func (p c15) Exec(t *core.Trace) *core.Result {
 			var err error
 			var gt *gpt.Table
 			var tb partition.Table
-			t0 := time.Now()
+			t0 := core.CPUSeconds()
 			pk, pv, loc, _ := core.Guard(func() {
 				switch reader {
 				case "partition.Read":
@@ -244,8 +243,8 @@ func (p c15) Exec(t *core.Trace) *core.Result {
 			if img.St.Reads > 4000 {
 				return &core.Violation{Clause: "C15.read-budget", Trigger: reader + ":" + trig, Locus: "partition/gpt.Read", Detail: fmt.Sprintf("%s issued %d device reads\nfaults: %v", reader, img.St.Reads, ops)}
 			}
-			if el := time.Since(t0); el > 10*time.Second {
-				return &core.Violation{Clause: "C15.slow", Trigger: reader + ":" + trig, Locus: "partition/gpt.Read", Detail: fmt.Sprintf("%s took %v\nfaults: %v", reader, el, ops)}
+			if el := core.CPUSeconds() - t0; el > 10 {
+				return &core.Violation{Clause: "C15.slow", Trigger: reader + ":" + trig, Locus: "partition/gpt.Read", Detail: fmt.Sprintf("%s took %.1f s of CPU time\nfaults: %v", reader, el, ops)}
 			}
 			if err != nil {
 				res.Probe("reader-returned-error")
